@@ -121,9 +121,22 @@ def discharge(obls, timeout_ms=60000, second_solver=False, quick_ms=4000):
                 rest.append(o)
         return rest
 
+    # performance hint only (never a verdict): which ladder step discharged an obligation of this name last time
+    hints = _load_hints()
+    solvers = {"z3-5.1.0": _solve_z3py, "z3-4.8.12": _solve_z3cli, "cvc5-1.0.3": _solve_cvc5}
+    groups = {}
+    for o in todo:
+        h = hints.get(o.name)
+        if h and h[0] in solvers and h != ["z3-5.1.0", "recent"]:
+            groups.setdefault(tuple(h), []).append(o)
+    hinted = set()
+    for (backend, variant), items in groups.items():
+        left = run(solvers[backend], backend, items, quick_ms * 2, variant)
+        hinted |= {id(o) for o in items if o not in left}
+    todo = [o for o in todo if id(o) not in hinted]
     rest = run(_solve_z3py, "z3-5.1.0", todo, quick_ms, "recent")
     rest = run(_solve_z3cli, "z3-4.8.12", rest, quick_ms, "all")
-    for variant in ("recent:20", "recent:50", "entry+recent"):
+    for variant in ("relevant:2", "recent:20", "recent:50", "entry+recent"):
         rest = run(_solve_z3py, "z3-5.1.0", rest, quick_ms, variant)
         rest = run(_solve_z3cli, "z3-4.8.12", rest, quick_ms, variant)
     rest = run(_solve_z3cli, "z3-4.8.12", rest, quick_ms, "recent")
@@ -144,6 +157,27 @@ def discharge(obls, timeout_ms=60000, second_solver=False, quick_ms=4000):
             if r == "sat" and getattr(o, "hyps_used", "all") == "all":
                 o.verdict, o.detail = "solver-disagreement", "z3-5.1.0 unsat, z3-4.8.12 sat"
     return obls
+
+
+HINTS_FILE = os.path.join(os.path.dirname(os.path.abspath(__file__)), "ladder_hints.json")
+
+
+def _load_hints():
+    import json
+    try:
+        return json.load(open(HINTS_FILE))
+    except Exception:   # noqa
+        return {}
+
+
+def save_hints(obls):
+    """development tool (tools/update_ladder_hints.py): remember the successful ladder step per obligation name"""
+    import json
+    h = _load_hints()
+    for o in obls:
+        if o.verdict == "discharged":
+            h[o.name] = [o.backend, getattr(o, "hyps_used", "all")]
+    json.dump(h, open(HINTS_FILE, "w"), indent=0, sort_keys=True)
 
 
 def check_sat(formulas, timeout_ms=3000):
